@@ -36,6 +36,7 @@ type Conn struct {
 	eof        bool   // server closed its side: Read returns io.EOF once toClient is drained
 	readErr    error  // injected read error (returned once toClient is drained)
 	closed     bool   // client called Close
+	closedCh   chan struct{} // closed by Close: a Write waiting at the gate returns, as a write on a real socket would
 	writes     []Write
 	wbuf       []byte // bytes written by the client, not yet split into lines
 	lines      []string
@@ -48,7 +49,7 @@ type Conn struct {
 }
 
 func newConn(addr string) *Conn {
-	c := &Conn{Addr: addr}
+	c := &Conn{Addr: addr, closedCh: make(chan struct{})}
 	c.cond = sync.NewCond(&c.mu)
 	return c
 }
@@ -93,7 +94,10 @@ func (c *Conn) Write(p []byte) (int, error) {
 	gate := c.writeGate
 	c.mu.Unlock()
 	if gate != nil {
-		<-gate
+		select {
+		case <-gate:
+		case <-c.closedCh:
+		}
 	}
 	c.mu.Lock()
 	defer c.mu.Unlock()
@@ -129,6 +133,9 @@ func (c *Conn) Close() error {
 	}
 	c.mu.Lock()
 	defer c.mu.Unlock()
+	if !c.closed {
+		close(c.closedCh)
+	}
 	c.closed = true
 	c.cond.Broadcast()
 	return nil
